@@ -191,13 +191,16 @@ var hCallee = map[string]hEffect{
 	"pkg.common.StrToReferType":           {nil, ""}, // pure string -> enum
 }
 
-// packages whose functions never touch the shared resources (stateless helpers, standard library)
+// packages whose functions never touch the shared resources (stateless helpers, standard library).
+// "ioutil": TextDocumentDidOpen compares the text it is sent with the file (ioutil.ReadFile): reading a file takes no lock
+// and touches none of the shared resources of the table - the file system is not server state, and the handler's own
+// accesses around the call (document cache, analysis, live / saved diagnostics) are recorded as before
 var hPurePkgs = map[string]bool{
 	"log": true, "lspcommon": true, "stringutil": true, "codingconv": true, "strbytesconv": true, "fmt": true,
 	"strings": true, "time": true, "json": true, "net": true, "runtime": true, "user": true, "regexp": true,
 	"unicode": true, "lsp": true, "protocol": true, "annotateast": true, "sort": true, "os": true, "context": true,
 	"filefolder": true, "strconv": true, "bytes": true, "math": true, "utf8": true, "errors": true, "sync": true,
-	"jrpc2": true, "handler": true, "lexer": true,
+	"jrpc2": true, "handler": true, "lexer": true, "ioutil": true,
 }
 
 // packages that own shared state: every function called on them must be in the table
